@@ -215,8 +215,8 @@ async fn run_history(name: &str, initial: &[(&'static str, &'static str)], hist:
             w.rv += 1;
             let rv = w.rv;
             match ev {
-                Ev::Added(n, st) => { w.objects.insert(n.to_string(), (st.to_string(), rv, None)); let l = json!({"type": "ADDED", "object": gs(n, st, rv, &[])}).to_string(); w.pending.push(l); }
-                Ev::Modified(n, st) => { w.objects.insert(n.to_string(), (st.to_string(), rv, None)); let l = json!({"type": "MODIFIED", "object": gs(n, st, rv, &[])}).to_string(); w.pending.push(l); }
+                Ev::Added(n, st) => { w.noports.remove(*n); w.objects.insert(n.to_string(), (st.to_string(), rv, None)); let l = json!({"type": "ADDED", "object": gs(n, st, rv, &[])}).to_string(); w.pending.push(l); }
+                Ev::Modified(n, st) => { w.noports.remove(*n); w.objects.insert(n.to_string(), (st.to_string(), rv, None)); let l = json!({"type": "MODIFIED", "object": gs(n, st, rv, &[])}).to_string(); w.pending.push(l); }
                 Ev::Deleted(n) => { let old = w.objects.remove(*n); let st = old.map(|o| o.0).unwrap_or_else(|| "Shutdown".to_string()); let l = json!({"type": "DELETED", "object": gs(n, &st, rv, &[])}).to_string(); w.pending.push(l); }
                 Ev::Relist | Ev::VanishAndRelist(_) | Ev::InterruptedRelist(_) => {}
                 Ev::ModifiedNoPorts(n, st) => {
@@ -264,7 +264,7 @@ async fn run_history(name: &str, initial: &[(&'static str, &'static str)], hist:
     found
 }
 
-pub fn histories(_seed: u64) -> usize {
+pub fn histories(seed: u64) -> usize {
     let rt = tokio::runtime::Builder::new_multi_thread().worker_threads(2).enable_all().build().expect("rt");
     use Ev::*;
     let hs: Vec<(&str, Vec<(&'static str, &'static str)>, Vec<Ev>)> = vec![
@@ -288,6 +288,46 @@ pub fn histories(_seed: u64) -> usize {
         // a re-list history removes an object while the watch is down
         found += rt.block_on(run_history(name, init, hist));
     }
-    eprintln!("agones: {} histories, {found} mismatches", hs.len());
+    // seeded random histories over four names (one of them with an IPv6 address): every event is legal for the API server's state
+    // (ADDED only for an absent object, MODIFIED / DELETED only for a present one); 16 histories of 8 events
+    let names: [&'static str; 4] = ["gs-a", "gs-b", "gs-c", "gs-v6"];
+    let states: [&'static str; 6] = ["Ready", "Allocated", "Shutdown", "Scheduled", "Unhealthy", "Reserved"];
+    let mut x = seed.wrapping_mul(0x9E3779B97F4A7C15) ^ 0xD1B54A32D192ED03 | 1;
+    let mut rnd = move || { x ^= x << 13; x ^= x >> 7; x ^= x << 17; x };
+    let mut random_count = 0;
+    for h in 0..16 {
+        if found > 0 {
+            break;
+        }
+        let mut present: Vec<&'static str> = vec![];
+        let mut init: Vec<(&'static str, &'static str)> = vec![];
+        for n in names {
+            if rnd() % 2 == 0 {
+                init.push((n, states[(rnd() % 3) as usize]));
+                present.push(n);
+            }
+        }
+        let mut hist: Vec<Ev> = vec![];
+        for _ in 0..8 {
+            let n = names[(rnd() % 4) as usize];
+            let st = states[(rnd() % 6) as usize];
+            let is_present = present.contains(&n);
+            let ev = match (rnd() % 10, is_present) {
+                (0, _) => Relist,
+                (1, true) => { present.retain(|p| *p != n); VanishAndRelist(n) }
+                (2, true) => { present.retain(|p| *p != n); InterruptedRelist(n) }
+                (3, true) => { present.retain(|p| *p != n); Deleted(n) }
+                (4, true) => { present.retain(|p| *p != n); ModifiedNoPorts(n, st) }
+                (_, true) => Modified(n, st),
+                (_, false) => { present.push(n); Added(n, st) }
+            };
+            hist.push(ev);
+        }
+        random_count += 1;
+        let label = format!("random-{seed}-{h}");
+        let label: &'static str = Box::leak(label.into_boxed_str());
+        found += rt.block_on(run_history(label, &init, &hist));
+    }
+    eprintln!("agones: {} scripted + {random_count} random histories, {found} mismatches", hs.len());
     found
 }
